@@ -17,12 +17,14 @@ import copy
 import signal
 import sys
 
-from fpy2.analysis import Alias, ArraySizeInfer, DefineUse, PartialEval, TypeInfer, ValueClassInfer
+from fpy2.analysis import Alias, ArraySizeInfer, DefineUse, PartialEval, Purity, TypeInfer, ValueClassInfer
 from fpy2.analysis.array_size import ListSize, TupleSize
 from fpy2.analysis.reaching_defs import AssignDef
 from fpy2.analysis.value_class import ValueClass
 from fpy2.ast import fpyast as A
 from fpy2.types import BoolType, ContextType, ListType, RealType, TupleType
+from fpy2.function import Function
+from fpy2.number import Context
 from fpy2.utils import NamedId
 
 from .export import OutOfDomain
@@ -115,6 +117,40 @@ def static_info(fn, fmt_of_def=None, fmt_of_expr=None):
 
     lines: dict = {}
     owner: dict = {}
+    purity_of: dict = {}
+
+    def only_pure_calls(node) -> bool:
+        """every call in the statement's own expressions goes to a context constructor or to a function the purity analysis calls pure"""
+        ok = True
+
+        def go(n):
+            nonlocal ok
+            if isinstance(n, A.StmtBlock):
+                return
+            if isinstance(n, A.Call):
+                fnobj = n.fn
+                if isinstance(fnobj, type) and issubclass(fnobj, Context):
+                    pass
+                elif isinstance(fnobj, Function):
+                    if id(fnobj) not in purity_of:
+                        try:
+                            purity_of[id(fnobj)] = bool(Purity.analyze(fnobj.ast))
+                        except Exception:       # noqa: BLE001
+                            purity_of[id(fnobj)] = False
+                    ok = ok and purity_of[id(fnobj)]
+                else:
+                    ok = False
+            if isinstance(n, A.Ast):
+                for sl in _slots(n):
+                    go(getattr(n, sl, None))
+            elif isinstance(n, (list, tuple)):
+                for x in n:
+                    go(x)
+        for sl in _slots(node):
+            v = getattr(node, sl, None)
+            if not isinstance(v, A.StmtBlock):
+                go(v)
+        return ok
 
     def line_of(st) -> int:
         return st.loc.start_line
@@ -151,7 +187,8 @@ def static_info(fn, fmt_of_def=None, fmt_of_expr=None):
             L = line_of(st)
             if L in lines:
                 raise NotTraceable('two statements on one line')
-            rec = {'k': 'other', 'defs': [], 'redef': [], 'uses': [], 'b0': -1, 'body': [], 'cc': [], 'ret': []}
+            rec = {'k': 'other', 'defs': [], 'redef': [], 'uses': [], 'b0': -1, 'body': [], 'cc': [], 'ret': [],
+                   'frame': not isinstance(st, A.IndexedAssign) and only_pure_calls(st)}
             lines[L] = rec
             owner[id(st)] = st
             if isinstance(st, A.Assign):
@@ -282,8 +319,12 @@ def static_info(fn, fmt_of_def=None, fmt_of_expr=None):
                 if a < b:
                     pairs.add((a, b))
     nfacts = sum(4 * len(r['defs']) + len(r['uses']) + len(r['cc']) + len(r['ret']) for r in lines.values()) + 3 * len(params) + len(pairs)
+    try:
+        pure = [bool(Purity.analyze(ast))]
+    except Exception:       # noqa: BLE001   a refusal (recursion, ...) is no claim
+        pure = []
     names = sorted({f['n'] for r in lines.values() for f in r['defs']} | {f['n'] for f in params})
-    return {'name': ast.name, 'lines': {str(k): v for k, v in lines.items()}, 'params': params, 'names': names,
+    return {'name': ast.name, 'lines': {str(k): v for k, v in lines.items()}, 'params': params, 'names': names, 'pure': pure,
             'alias': sorted([list(p) for p in pairs]), 'nfacts': nfacts}
 
 
@@ -310,6 +351,16 @@ def record_run(fn, args, ctx, names=None, limit: int = 10, max_events: int = 400
     name = fn.ast.name
     src, l0, l1 = fn.ast.loc.source, fn.ast.loc.start_line, fn.ast.loc.end_line
     a = copy.deepcopy(args)
+
+    def _args_json():
+        out_ = []
+        for x in a:
+            try:
+                out_.append(value_json(x))
+            except (Unsupported, OutOfDomain, TypeError, ValueError):
+                out_.append(None)
+        return out_
+    before = _args_json()
     state = {'frame': None, 'events': [], 'over': False}
     prev_vals: dict = {}
 
@@ -385,6 +436,7 @@ def record_run(fn, args, ctx, names=None, limit: int = 10, max_events: int = 400
             carry = {}
         merged.append(e)
     out['ev'] = merged
+    out['mut'] = before != _args_json()         # did the call change a list the caller handed in?
     out['tail'] = carry          # changes made by the last statement after its first event (nothing reads them)
     return out
 
